@@ -6,6 +6,7 @@ import (
 	"bytes"
 	"fmt"
 	"math"
+	"strings"
 	"sync"
 
 	"github.com/wolimst/lib-secs2-hsms-go/pkg/ast"
@@ -261,6 +262,8 @@ func specSizeOK(size int, lower int, upper int) bool {
 //@   rac_ensures racDiagnosticsOK(input, errors) && racDiagnosticsOK(input, warnings)
 //@   rac_ensures racPrintedFormsReparse()
 //@   rac_ensures racLoneEllipsisKeepsName()
+//@   rac_ensures racLayoutInvariant()
+//@   rac_ensures racConcatIndependent()
 //@   loop 1
 //@     invariant fresh(p) && fresh(p.messages)
 //@   loop 2
@@ -575,4 +578,217 @@ func racLoneEllipsisKeepsName() bool {
 		return false
 	}
 	return fmt.Sprint(again[0].Variables()) == fmt.Sprint(m.Variables())
+}
+
+// ---- C08 / C19 (bounded): relations between texts, evaluated once per process on an enumerated corpus ----
+
+// racCorpus: printed forms of the message pool (one per item kind and a sample of headers) plus texts the parser rejects.
+func racCorpus() (accepted []string, rejected []string) {
+	pool := racMessagePool()
+	for i, m := range pool {
+		if i < len(racItemPool()) || i%97 == 0 {
+			accepted = append(accepted, m.String())
+		}
+	}
+	accepted = append(accepted,
+		"S1F1 W H->E two\n<L\n  <U1 1 2 3>\n  <A \"x y\" 0x0A \"z\">\n  <BOOLEAN T F>\n  <F4 1.5 -2e3>\n  <I2 0x10 0b11 0o17 -5>\n>\n.\nS2F2 H<-E second\n<B 0xFF 0b1>\n.",
+		"S0F0 H<->E\n.",
+	)
+	rejected = []string{
+		"S1F1 W H->E m\n<U1 256>\n.",
+		"S1F2 W H->E m\n.",
+		"S1F1 H->E m\n<A \"abc>\n.",
+		"S1F1 H->E m\n<L\n  <U1 1\n>\n.",
+		"S999F1 H->E m\n<U1 1>\n.",
+		"S1F1 H->E m\n<U1[2] 1>\n.",
+		"S1F1 H->E m\n<I1 1.5>\n<B 300>\n.",
+		"S1F1 H->E m\n<L ... <U1 1>>\n.",
+		"S1F1 H->E m\n<Q 1>\n.",
+		"S1F1 m\n<U1 1>\n.",
+	}
+	return accepted, rejected
+}
+
+type racParsed struct {
+	msgs  []string
+	errs  []string
+	warns []string
+}
+
+func racParse(text string) (r racParsed) {
+	defer func() {
+		if x := recover(); x != nil {
+			r.errs = append(r.errs, fmt.Sprintf("PANIC %v", x))
+		}
+	}()
+	ms, es, ws := Parse(text)
+	for _, m := range ms {
+		r.msgs = append(r.msgs, m.String()+fmt.Sprint(m.Variables()))
+	}
+	r.errs, r.warns = es, ws
+	return r
+}
+
+// racDiagText strips the "Ln x, Col y: " position from a diagnostic.
+func racDiagText(d string) string {
+	if i := strings.Index(d, ": "); i >= 0 && strings.HasPrefix(d, "Ln ") {
+		return d[i+2:]
+	}
+	return d
+}
+
+func racSameModuloPositions(a, b racParsed, exactPositions bool) bool {
+	if fmt.Sprint(a.msgs) != fmt.Sprint(b.msgs) || len(a.errs) != len(b.errs) || len(a.warns) != len(b.warns) {
+		return false
+	}
+	for i := range a.errs {
+		if racDiagText(a.errs[i]) != racDiagText(b.errs[i]) || (exactPositions && a.errs[i] != b.errs[i]) {
+			return false
+		}
+	}
+	for i := range a.warns {
+		if racDiagText(a.warns[i]) != racDiagText(b.warns[i]) || (exactPositions && a.warns[i] != b.warns[i]) {
+			return false
+		}
+	}
+	return true
+}
+
+// racOutsideQuotes applies f to the stretches of text that are not inside a quoted string.
+func racOutsideQuotes(text string, f func(string) string) string {
+	var sb strings.Builder
+	for len(text) > 0 {
+		i := strings.IndexByte(text, '"')
+		if i < 0 {
+			sb.WriteString(f(text))
+			break
+		}
+		sb.WriteString(f(text[:i]))
+		j := strings.IndexAny(text[i+1:], "\"\n")
+		if j < 0 || text[i+1+j] == '\n' {
+			// unclosed string: leave the rest alone
+			sb.WriteString(text[i:])
+			break
+		}
+		sb.WriteString(text[i : i+1+j+1])
+		text = text[i+1+j+1:]
+	}
+	return sb.String()
+}
+
+var (
+	racLayoutOnce sync.Once
+	racLayoutOK   bool
+	racConcatOnce sync.Once
+	racConcatOK   bool
+)
+
+// racLayoutInvariant (C08, bounded): comments appended to every line, CRLF line ends, widened whitespace between tokens
+// leave messages and diagnostic texts unchanged; comments and CRLF also leave every diagnostic position unchanged.
+func racLayoutInvariant() bool {
+	racLayoutOnce.Do(func() {
+		racLayoutOK = true
+		acc, rej := racCorpus()
+		n := 0
+		fail := func(kind, text, variant string) {
+			racLayoutOK = false
+			fmt.Printf("GOVC-NOTE racLayoutInvariant: %s changes the result of %q (variant %q)\n", kind, text, variant)
+		}
+		comments := []string{" // plain", "// \u00e0 \u4e2d \U0001F600", " // c\v", " // tail \t ", "//", " // \"quoted\" <A> .", " // \xa0\x85"}
+		for ti, text := range append(append([]string{}, acc...), rej...) {
+			base := racParse(text)
+			lines := strings.Split(text, "\n")
+			oddQuotes := false
+			for _, ln := range lines {
+				if strings.Count(ln, "\"")%2 == 1 {
+					oddQuotes = true // the end of that line is inside an unclosed string: what follows is not a comment
+				}
+			}
+			for ci, c := range comments {
+				if oddQuotes && strings.Contains(c, "\"") {
+					continue
+				}
+				if (ti+ci)%3 != 0 && ti > 40 {
+					continue
+				}
+				v := strings.Join(lines, c+"\n") + c
+				n++
+				if !racSameModuloPositions(base, racParse(v), true) {
+					fail("a line-end comment", text, v)
+					return
+				}
+			}
+			v := strings.ReplaceAll(text, "\n", "\r\n")
+			n++
+			if !racSameModuloPositions(base, racParse(v), true) {
+				fail("CRLF", text, v)
+				return
+			}
+			v = racOutsideQuotes(text, func(s string) string {
+				return strings.ReplaceAll(strings.ReplaceAll(s, " ", " \t  "), "\n", "\n\n \t")
+			})
+			n++
+			if !racSameModuloPositions(base, racParse(v), false) {
+				fail("wider whitespace", text, v)
+				return
+			}
+		}
+		// letter case of keywords, type names and number prefixes (variable-free item text only: names are case sensitive)
+		for _, pair := range [][2]string{
+			{"S1F1 W H->E n\n<L\n  <U1 0x1F 0b11 0o7>\n  <BOOLEAN T F>\n  <A \"Keep Case\">\n  <F8 1E3>\n  <I4 -7>\n  <B 0XA>\n>\n.", "s1f1 w h->e n\n<l\n  <u1 0X1f 0B11 0O7>\n  <boolean t f>\n  <a \"Keep Case\">\n  <f8 1e3>\n  <i4 -7>\n  <b 0xa>\n>\n."},
+			{"S2F3 [W] H<-E n\n<U2 1>\n.", "s2f3 [w] h<-e n\n<u2 1>\n."},
+			{"S2F4 H<->E n\n<F4 1E2 2>\n.", "S2f4 h<->E n\n<f4 1e2 2>\n."},
+		} {
+			n++
+			if !racSameModuloPositions(racParse(pair[0]), racParse(pair[1]), true) {
+				fail("letter case", pair[0], pair[1])
+				return
+			}
+		}
+		fmt.Println("GOVC-COUNT racLayoutInvariant text variants compared:", n)
+	})
+	return racLayoutOK
+}
+
+// racConcatIndependent (C19, bounded): parsing a ++ sep ++ b returns the messages of a followed by those of b.
+func racConcatIndependent() bool {
+	racConcatOnce.Do(func() {
+		racConcatOK = true
+		acc, _ := racCorpus()
+		var texts []string
+		for i, t := range acc {
+			if i%9 == 0 || i >= len(acc)-12 {
+				texts = append(texts, t)
+			}
+		}
+		seps := []string{"", " ", "\n", "\r\n", " // c\n", "\t\n\n"}
+		n := 0
+		for i, a := range texts {
+			pa := racParse(a)
+			for j, b := range texts {
+				pb := racParse(b)
+				sep := seps[(i+j)%len(seps)]
+				got := racParse(a + sep + b)
+				n++
+				want := append(append([]string{}, pa.msgs...), pb.msgs...)
+				if len(pa.errs) != 0 || len(pb.errs) != 0 || len(got.errs) != 0 || fmt.Sprint(got.msgs) != fmt.Sprint(want) || len(got.warns) != len(pa.warns)+len(pb.warns) {
+					racConcatOK = false
+					fmt.Printf("GOVC-NOTE racConcatIndependent: %q ++ %q ++ %q gives %v errors %v\n", a, sep, b, got.msgs, got.errs)
+					return
+				}
+			}
+		}
+		// three in a row, reusing variable names and ellipses
+		t := "S1F1 W H->E a\n<L\n  <U1 v>\n  ...\n>\n."
+		p1 := racParse(t)
+		p3 := racParse(t + t + "\n" + t)
+		n++
+		if len(p3.errs) != 0 || fmt.Sprint(p3.msgs) != fmt.Sprint(append(append(append([]string{}, p1.msgs...), p1.msgs...), p1.msgs...)) {
+			racConcatOK = false
+			fmt.Printf("GOVC-NOTE racConcatIndependent: repeated message with reused names gives %v errors %v\n", p3.msgs, p3.errs)
+			return
+		}
+		fmt.Println("GOVC-COUNT racConcatIndependent concatenations compared:", n)
+	})
+	return racConcatOK
 }
